@@ -7,7 +7,9 @@ Spec symbols (every axiom group below is exercised by lemmas/spotcheck.py throug
   ccnt(c, x, n)       = #{s < n : c[s] == x}                  number of samples whose entry in the column c is x
   csum(y, c, x, n)    = sum_{s<n, c[s]==x} y[s]               sum of the sample values over these samples
   rsum(y, n)          = sum_{s<n} y[s]
+  unq(c, n), unqlen(c, n), upos(c, n, s)   np.unique(c[:n]): sorted distinct values, their number, where c[s] sits (group 'unique')
   p2in(W, ix, i1, m)  = sum_{i2=i1+1}^{m-1} W[i1][i2][ix[i1]][ix[i2]]        pair terms of one first mode (group 'psum2')
+  fsum_in / fsum_out  formal sums of delta tensors for anova_func (group 'fsum'; dterm / dzero are uninterpreted valuations)
   p2out(W, ix, n, m)  = sum_{i1<m} p2in(W, ix, i1, n)                        all pair terms with first mode < m of an index of length n
   cmean(y, c, x, n)   = csum / ccnt  (for ccnt > 0)           conditional sample mean = np.mean(y[c == x])
   rmean(y, n)         = rsum / n     (for n > 0)              sample mean = np.mean(y)
@@ -95,6 +97,33 @@ T.GROUPS['psum2'] = [
     T.A([_W, _ix, _n], p2out(_W, _ix, _n, 0) == 0, [p2out(_W, _ix, _n, 0)]),
     T.A([_W, _ix, _n, _m, _j], z3.Implies(z3.And(_m >= 0, _j == _m + 1), p2out(_W, _ix, _n, _j) == p2out(_W, _ix, _n, _m) + p2in(_W, _ix, _m, _n)),
         [z3.MultiPattern(p2out(_W, _ix, _n, _m), p2out(_W, _ix, _n, _j))]),
+]
+# formal sum of delta tensors (functional variant): dterm(i, q, v) stands for the contribution of the tensor  v * delta(q e_i)  and
+# dzero(v) for that of  v * delta(0, .., 0)  to an arbitrary additive valuation of tensors (both uninterpreted)
+dterm = z3.Function('dterm', I, I, R, R)
+dzero = z3.Function('dzero', R, R)
+fsum_in = z3.Function('fsum_in', RAA, I, I, R)          # sum_{t<q} dterm(i, t+1, C[i][t])
+fsum_out = z3.Function('fsum_out', RAA, IA, I, R)       # sum_{i<k} fsum_in(C, i, L[i])
+_L = z3.Const('L!v', IA)
+T.GROUPS['fsum'] = [
+    T.A([_F, _i], fsum_in(_F, _i, 0) == 0, [fsum_in(_F, _i, 0)]),
+    T.A([_F, _i, _k, _j], z3.Implies(z3.And(_k >= 0, _j == _k + 1), fsum_in(_F, _i, _j) == fsum_in(_F, _i, _k) + dterm(_i, _j, _F[_i][_k])),
+        [z3.MultiPattern(fsum_in(_F, _i, _k), fsum_in(_F, _i, _j))]),
+    T.A([_F, _L], fsum_out(_F, _L, 0) == 0, [fsum_out(_F, _L, 0)]),
+    T.A([_F, _L, _k, _j], z3.Implies(z3.And(_k >= 0, _j == _k + 1), fsum_out(_F, _L, _j) == fsum_out(_F, _L, _k) + fsum_in(_F, _k, _L[_k])),
+        [z3.MultiPattern(fsum_out(_F, _L, _k), fsum_out(_F, _L, _j))]),
+]
+# np.unique of the first n entries of an integer vector: the sorted distinct values (a function of the data)
+unq = z3.Function('unq', IA, I, IA)                     # np.unique(c[:n])
+unqlen = z3.Function('unqlen', IA, I, I)                # len(np.unique(c[:n]))
+upos = z3.Function('upos', IA, I, I, I)                 # position of c[s] in np.unique(c[:n])
+T.GROUPS['unique'] = [
+    T.A([_col, _n], z3.And(0 <= unqlen(_col, _n), z3.Implies(_n >= 0, unqlen(_col, _n) <= _n), z3.Implies(_n >= 1, unqlen(_col, _n) >= 1)), [unqlen(_col, _n)]),
+    T.A([_col, _n, _a, _b], z3.Implies(z3.And(0 <= _a, _a < _b, _b < unqlen(_col, _n)), unq(_col, _n)[_a] < unq(_col, _n)[_b]),
+        [z3.MultiPattern(unq(_col, _n)[_a], unq(_col, _n)[_b])]),
+    T.A([_col, _n, _k], z3.Implies(z3.And(0 <= _k, _k < unqlen(_col, _n)), ccnt(_col, unq(_col, _n)[_k], _n) >= 1), [unq(_col, _n)[_k]]),
+    T.A([_col, _n, _k], z3.Implies(z3.And(0 <= _k, _k < _n), z3.And(0 <= upos(_col, _n, _k), upos(_col, _n, _k) < unqlen(_col, _n),
+                                                                   unq(_col, _n)[upos(_col, _n, _k)] == _col[_k])), [upos(_col, _n, _k)]),
 ]
 # the two means: defining equations (products of two symbolic numbers - for quantifier-free obligations only)
 T.GROUPS['cmean'] = [
@@ -313,9 +342,13 @@ _orig_assigned_names = symex.Exec.assigned_names
 def _assigned_names(self, stmts):
     names, muts = _orig_assigned_names(self, stmts)
     if _on(self):
-        extra = attr_mutations(stmts) - set(getattr(self, 'attr_havoc', ()))
+        found = attr_mutations(stmts)
+        extra = found - set(getattr(self, 'attr_havoc', ()))
         if extra:
             raise ContractMismatch(f'the loop body mutates {sorted(extra)}: not declared by the contract (attr_havoc)')
+        # `obj.attr[k] = v` makes symex list `obj` itself as mutated (it would havoc the whole record); the declared attributes are
+        # havocked one by one by the unit's havoc_hook instead
+        muts = muts - {a.split('.')[0] for a in found}
     return names, muts
 
 
@@ -327,6 +360,9 @@ def havoc_attr(ex, st, obj_name, attr):
     rec = st.deref(st.vars[obj_name])
     ref = rec.fields[attr]
     o = st.deref(ref)
+    if isinstance(o, VArr) and o.ndim == 1 and o.tag == 'ivec' and o.t is not None:      # an integer vector written element by element
+        rec.fields[attr] = VArr(o.shape, ex.fresh(attr + '_arr', IA), 'ivec', o.dtype)
+        return rec.fields[attr]
     if not (isinstance(ref, VRef) and isinstance(o, VSeq)):
         raise ContractMismatch(f'{obj_name}.{attr} is not a list of the expected kind')
     st.heap[ref.oid] = VSeq(ex.fresh(attr + '_arr', o.arr.sort()), ex.fresh_int(attr + '_len'), o.wrap, o.tag, getattr(o, 'unwrap', None))
@@ -445,3 +481,252 @@ def contains(ex, st, l, r, neg, node):
 
 
 M.contains = contains
+
+
+# ---- batches of multi-indices:  np.array([self.calc(i) for i in I])
+#
+#   IRows     2-D integer array (K x d) given by its rows: `rows[s]` is the multi-index number s; iterating over it yields the rows as
+#             1-D integer vectors.
+#   [self.m(i) for i in I]   where self.m is a callee contract that returns a real number built from its argument alone: the list of
+#             reals `out` with out[s] = m(rows[s]) for every s (the generic model of list comprehensions keeps no facts about real
+#             elements).  Everything the contract obliges is obliged for a generic row 0 <= s < K.
+#   real_array(seq)          np.array of such a list: the real vector with the same elements (handed to units through `callees`).
+
+class IRows(VArr):
+    def __init__(self, shape, rows, dtype='i'):
+        super().__init__(shape, None, 'irows', dtype)
+        self.rows = rows
+
+
+_orig_iter_of_value = M._iter_of_value
+
+
+def _iter_of_value(ex, st, v, node):
+    w = st.deref(v)
+    if isinstance(w, IRows):
+        used('iteration over a 2-D integer array -> its rows')
+        return Z(w.shape[0]), (lambda j, w=w: VArr((w.shape[1],), w.rows[j], 'ivec', w.dtype)), False
+    return _orig_iter_of_value(ex, st, v, node)
+
+
+M._iter_of_value = _iter_of_value
+
+_orig_listcomp = M.listcomp
+
+
+def listcomp(ex, st, e):
+    g = e.generators[0] if len(e.generators) == 1 else None
+    if _on(ex) and g is not None and not g.ifs and isinstance(e.elt, ast.Call) and isinstance(e.elt.func, ast.Attribute) \
+            and isinstance(e.elt.func.value, ast.Name) and e.elt.func.value.id in st.vars and isinstance(g.target, ast.Name):
+        rec = st.deref(st.vars[e.elt.func.value.id])
+        fn = rec.fields.get(e.elt.func.attr) if isinstance(rec, VRec) else None
+        if isinstance(fn, VFunc) and getattr(fn, 'real_of_argument', False):
+            it = M.iteration(ex, st, g.iter, e)
+            if it.concrete is None:
+                saved = dict(st.vars)
+                try:
+                    j = ex.fresh_int('lc')
+                    mark = len(st.pc)
+                    guard = z3.And(j >= 0, j < it.n)
+                    st.pc.append(guard)
+                    ex.assign(g.target, it.bind(ex, st, j), st)
+                    cnt0 = ex.cnt
+                    elt = ex.ev(e.elt, st)
+                    added = st.pc[mark + 1:]
+                    del st.pc[mark:]
+                    for f in added:                       # everything learnt for the generic row stays guarded by 0 <= j < K
+                        st.pc.append(z3.Implies(guard, f))
+                    if not (is_num(elt) and not is_intsort(elt)) or ex.cnt != cnt0:
+                        raise Unsupported('list comprehension over a method of the object: the element is not a real number built from the argument alone')
+                    used('[self.m(i) for i in I] -> list of reals, element s = m(row s) (contract of m applied to a generic row)')
+                    arr = ex.fresh('lc', RA)
+                    st.assume(z3.ForAll([j], z3.Implies(guard, arr[j] == to_real(elt)), patterns=[arr[j]]))
+                    return st.alloc(VSeq(arr, it.n, lambda t: t, tag='real'))
+                finally:
+                    for k in list(st.vars):
+                        if k not in saved:
+                            del st.vars[k]
+                        else:
+                            st.vars[k] = saved[k]
+    return _orig_listcomp(ex, st, e)
+
+
+M.listcomp = listcomp
+
+
+def real_array(ex, st, args, kwargs, node):
+    v = st.deref(args[0]) if len(args) == 1 and not kwargs else None
+    if isinstance(v, VSeq) and v.tag == 'real':
+        used('np.array(list of reals) -> real vector with the same elements')
+        return VArr((v.n,), v.arr, 'rvec', 'f')
+    raise Unsupported(f'np.array pattern at line {node.lineno}')
+
+
+def same_int_array(ex, st, args, kwargs, node):
+    """np.asanyarray(I) / np.asanyarray(I, dtype=<integer dtype of the object>) of an integer array: the array itself."""
+    v = st.deref(args[0]) if len(args) == 1 else None
+    dt = kwargs.get('dtype')
+    if isinstance(v, VArr) and v.dtype == 'i' and set(kwargs) <= {'dtype'} and (dt is None or (isinstance(dt, M.TypeVal) and dt.name == 'int')):
+        used('np.asanyarray(I, dtype=int) of an integer array -> the same array')
+        return v
+    raise Unsupported(f'np.asanyarray pattern at line {node.lineno}')
+
+
+# ---- lists of whole tensors (control tier): a tensor is a token VSym(Int term); `[Y] + many` prepends to a symbolic list of tokens
+
+_orig_seq_concat = M.seq_concat
+
+
+def seq_concat(ex, st, a, b, node):
+    if _on(ex) and isinstance(a, VList) and isinstance(b, VSeq) and b.tag == 'tts' and a.items \
+            and all(isinstance(x, symex.VSym) and x.term.sort() == I for x in a.items):
+        used('[Y, ..] + list of tensors -> concatenated list (tokens)')
+        k = z3.Int('k!c')
+        m = len(a.items)
+        arr = ex.fresh('cat', IA)
+        for i, x in enumerate(a.items):
+            st.assume(arr[i] == x.term)
+        st.assume(z3.ForAll([k], z3.Implies(k >= m, arr[k] == b.arr[k - m]), patterns=[arr[k]]))
+        return st.alloc(VSeq(arr, b.n + m, b.wrap, 'tts', getattr(b, 'unwrap', None)))
+    return _orig_seq_concat(ex, st, a, b, node)
+
+
+M.seq_concat = seq_concat
+
+
+# ---- anova_func.ANOVA_func.cores (control tier)
+#
+#   CfsList   the list `self.coeffs` = [c0, cf_1, .., cf_d]: a number followed by d real vectors.  `cfs[0]` is the number, `cfs[1:]` the
+#             list of the vectors (a VSeq whose k-th element is the real vector C[k] of length L[k]).
+#   iteration over a real vector yields its elements C[k][t] (the generic model yields unrelated reals).
+#   idx = np.zeros(d, dtype=int); idx[:] = c; idx[i] = v   on a NAMED integer vector: constant vector / functional update.
+
+class CfsList:
+    def __init__(self, head, tail_ref):
+        self.head, self.tail_ref = head, tail_ref
+
+    def copy(self):
+        return CfsList(self.head, self.tail_ref)
+
+
+_orig_subscript2 = M.subscript
+
+
+def subscript2(ex, st, base, sl_, node):
+    b = st.deref(base)
+    if isinstance(b, CfsList):
+        if isinstance(sl_, ast.Slice):
+            if sl_.step is None and sl_.upper is None and sl_.lower is not None and ex.ev(sl_.lower, st) == 1:
+                used('cfs[1:] -> the list of the per-mode coefficient vectors')
+                return b.tail_ref
+            raise Unsupported('slice of the coefficient list other than [1:]')
+        if ex.ev(sl_, st) == 0:
+            used('cfs[0] -> the constant term')
+            return b.head
+        raise Unsupported('index into the coefficient list other than 0')
+    return _orig_subscript2(ex, st, base, sl_, node)
+
+
+M.subscript = subscript2
+
+_orig_iter_of_value2 = M._iter_of_value
+
+
+def _iter_of_value2(ex, st, v, node):
+    w = st.deref(v)
+    if _on(ex) and isinstance(w, VArr) and w.ndim == 1 and w.tag == 'rvec' and w.t is not None and not isinstance(w, MaskedSel):
+        used('iteration over a real vector -> its elements')
+        return Z(w.shape[0]), (lambda j, w=w: w.t[j]), False
+    return _orig_iter_of_value2(ex, st, v, node)
+
+
+M._iter_of_value = _iter_of_value2
+
+_orig_store2 = M.store
+
+
+def store2(ex, st, base, sl_, v, node, base_node):
+    b = st.deref(base)
+    if _on(ex) and isinstance(b, VArr) and b.ndim == 1 and b.tag == 'ivec' and b.t is not None and isinstance(base_node, ast.Attribute) \
+            and isinstance(base_node.value, ast.Name) and not isinstance(sl_, (ast.Slice, ast.Tuple)):
+        rec = st.deref(ex.ev(base_node.value, st))
+        val = st.deref(v)
+        if isinstance(rec, VRec) and rec.fields.get(base_node.attr) is b and is_intsort(val) and not isinstance(val, bool):
+            k = ex.need_num(st, ex.ev(sl_, st), node)
+            if is_intsort(k):
+                k = M.norm_index(ex, st, k, b.shape[0], node, 'array-index')
+                used('self.v[k] = c on an integer vector attribute -> functional update of the attribute')
+                rec.fields[base_node.attr] = VArr(b.shape, z3.Store(b.t, Z(k), Z(val)), 'ivec', b.dtype)
+                return
+    if _on(ex) and isinstance(b, VArr) and b.ndim == 1 and b.tag == 'ivec' and b.t is not None and isinstance(base_node, ast.Name) \
+            and not getattr(b, 'shared', False):
+        val = st.deref(v)
+        if is_intsort(val) and not isinstance(val, bool):
+            if _full(sl_):
+                used('v[:] = c on an integer vector -> the constant vector')
+                st.vars[base_node.id] = VArr(b.shape, z3.K(I, Z(val)), 'ivec', b.dtype)
+                return
+            if not isinstance(sl_, (ast.Slice, ast.Tuple)):
+                k = ex.need_num(st, ex.ev(sl_, st), node)
+                if is_intsort(k):
+                    k = M.norm_index(ex, st, k, b.shape[0], node, 'array-index')
+                    used('v[k] = c on an integer vector -> functional update')
+                    st.vars[base_node.id] = VArr(b.shape, z3.Store(b.t, Z(k), Z(val)), 'ivec', b.dtype)
+                    return
+    return _orig_store2(ex, st, base, sl_, v, node, base_node)
+
+
+M.store = store2
+
+
+def int_zeros(ex, st, args, kwargs, node):
+    """np.zeros(n, dtype=int) -> the integer zero vector with an element-level denotation (handed to units through `callees`)."""
+    dt = kwargs.get('dtype')
+    if len(args) == 1 and set(kwargs) == {'dtype'} and isinstance(dt, M.TypeVal) and dt.name == 'int' and is_intsort(st.deref(args[0])):
+        n = ex.need_num(st, args[0], node)
+        ex.oblige(st, 'call-pre', 'non-negative-dimension', Z(n) >= 0, node)
+        used('np.zeros(n, dtype=int) -> integer zero vector of length n')
+        return VArr((n,), z3.K(I, z3.IntVal(0)), 'ivec', 'i')
+    raise Unsupported(f'np.zeros pattern at line {node.lineno}')
+
+
+# ---- np.unique of a column; lists of integer vectors of different lengths
+
+DARR = z3.Function('darr', I, IA)           # the integer vector behind a code
+DLEN = z3.Function('dlen', I, I)            # its length
+
+
+def ivec_seq(ex, st, arr=None, n=None):
+    """A Python list of 1-D integer arrays (symbolic length): element k is the vector DARR(arr[k]) of length DLEN(arr[k])."""
+    seq = VSeq(arr if arr is not None else ex.fresh('ivecs', IA), n if n is not None else z3.IntVal(0),
+               lambda c: VArr((DLEN(c),), DARR(c), 'ivec', 'i'), tag='ivecs')
+
+    def unwrap(ex_, st_, v, node):
+        o = st_.deref(v)
+        if not (isinstance(o, VArr) and o.ndim == 1 and o.tag == 'ivec' and o.t is not None):
+            raise ContractMismatch('what is appended to the list of integer vectors is not an integer vector with known entries')
+        c = ex_.fresh_int('ivec')
+        st_.assume(DARR(c) == o.t, DLEN(c) == Z(o.shape[0]))
+        return c
+    seq.unwrap = unwrap
+    return st.alloc(seq)
+
+
+def np_unique(ex, st, args, kwargs, node):
+    v = st.deref(args[0]) if len(args) == 1 and not kwargs else None
+    if isinstance(v, VArr) and v.ndim == 1 and v.tag == 'ivec' and v.t is not None:
+        used('np.unique(c) of a 1-D integer array -> unq(c, n): the sorted distinct values (strictly increasing, each occurs in c, every entry of c '
+             'is among them; 1 <= their number <= n for n >= 1)   [axiom group unique, spot-checked]')
+        n = Z(v.shape[0])
+        return VArr((unqlen(v.t, n),), unq(v.t, n), 'ivec', v.dtype)
+    raise Unsupported(f'np.unique pattern at line {node.lineno}')
+
+
+def same_array(ex, st, args, kwargs, node):
+    """np.asanyarray(x) / np.asanyarray(x, dtype=<the dtype x has>): the array itself."""
+    v = st.deref(args[0]) if len(args) == 1 else None
+    dt = kwargs.get('dtype')
+    if isinstance(v, VArr) and set(kwargs) <= {'dtype'} and (dt is None or (isinstance(dt, M.TypeVal) and dt.name == {'i': 'int', 'f': 'float'}.get(v.dtype))):
+        used('np.asanyarray(x, dtype) of an array that has this dtype -> the same array')
+        return v
+    raise Unsupported(f'np.asanyarray pattern at line {node.lineno}')
